@@ -75,15 +75,16 @@ func (h *H) pendingAt(msgs []*Msg, k int) []Pending {
 
 // restartOpts configure a new generation.
 type restartOpts struct {
-	K              int  // stop after the first K Persistence operations
-	Late           bool // broker state as of the start of operation K (false: as of the end of operation K-1)
-	Config         mqtt.Config
-	Mutate         func(store map[uint][]byte) // damage (C16)
-	NoCheck        bool                        // skip the clean-adoption assertions (C16)
-	AdoptFailNext  []byte                      // Persistence operations which fail once during AdoptSession
-	PreAdoptLimits int                         // a first AdoptSession with limits this low (see sim.Options)
-	StoreFlavour   string                      // "" = drawn by newH
-	FSMutate       func(dir string)            // stray entries in the directory of a filesystem-flavoured store
+	K                int  // stop after the first K Persistence operations
+	Late             bool // broker state as of the start of operation K (false: as of the end of operation K-1)
+	Config           mqtt.Config
+	Mutate           func(store map[uint][]byte) // damage (C16)
+	NoCheck          bool                        // skip the clean-adoption assertions (C16)
+	AdoptFailNext    []byte                      // Persistence operations which fail once during AdoptSession
+	PreAdoptLimits   int                         // a first AdoptSession with limits this low (see sim.Options)
+	PreAdoptFailLoad int                         // a first AdoptSession whose n-th Load fails (see sim.Options)
+	StoreFlavour     string                      // "" = drawn by newH
+	FSMutate         func(dir string)            // stray entries in the directory of a filesystem-flavoured store
 }
 
 // restart stops the process of h (which must have been shut down) after K
@@ -119,7 +120,7 @@ func (h *H) restart(o restartOpts) (*H, []Pending) {
 	h.WithLock(func() { deliveries = append(deliveries, h.Broker.Deliveries...) })
 	b := refmqtt.NewFromSnapshot(snap, deliveries)
 
-	n := newH(h.rt, h.prop, sim.Options{Config: o.Config, Adopt: true, Store: store, Broker: b, AdoptFailNext: o.AdoptFailNext, StoreFlavour: o.StoreFlavour, FSMutate: o.FSMutate, PreAdoptLimits: o.PreAdoptLimits})
+	n := newH(h.rt, h.prop, sim.Options{Config: o.Config, Adopt: true, Store: store, Broker: b, AdoptFailNext: o.AdoptFailNext, StoreFlavour: o.StoreFlavour, FSMutate: o.FSMutate, PreAdoptLimits: o.PreAdoptLimits, PreAdoptFailLoad: o.PreAdoptFailLoad})
 	n.genBase = append(append([]*sim.World(nil), h.genBase...), h.World)
 	n.nTopic = h.nTopic
 	n.gen = h.gen + 1
